@@ -161,6 +161,22 @@ func scanRedArg(c *core.Ctx) []ob {
 						out = append(out, okOb("REDARG", key, c.Rel(x.Pos()), "subtrahend is fully reduced, a table/RNS entry or a constant", true))
 					}
 				case *ast.CallExpr:
+					// s.AddScalar / s.SubScalar (and their lazy variants): the sub-ring kernels add the scalar and
+					// subtract the modulus at most once, so the scalar handed to them must already be a residue
+					if sel, ok := unparen(x.Fun).(*ast.SelectorExpr); ok && (strings.HasPrefix(sel.Sel.Name, "AddScalar") || strings.HasPrefix(sel.Sel.Name, "SubScalar")) && len(x.Args) == 3 {
+						if nn := namedOf(info.TypeOf(sel.X)); nn != nil && nn.Obj().Name() == "SubRing" {
+							mod := exprString(sel.X) + ".Modulus"
+							ord++
+							n++
+							key := fmt.Sprintf("REDARG:%s#scalar%d(%s.%s(%s))", fkey, ord, exprString(sel.X), sel.Sel.Name, exprString(x.Args[1]))
+							if why := rc.unreducedSource(x.Args[1], mod, 0); why != "" {
+								out = append(out, violOb("REDARG", key, c.Rel(x.Pos()), fmt.Sprintf("%s hands %s to %s.%s, whose kernel adds the scalar and subtracts the modulus at most once: the scalar is %s and can exceed that modulus, so the result is not reduced (and x + q - scalar wraps around 2^64 in the subtraction)", fkey, exprString(x.Args[1]), exprString(sel.X), sel.Sel.Name, why)))
+							} else {
+								out = append(out, okOb("REDARG", key, c.Rel(x.Pos()), "the scalar is a residue of that sub-ring's modulus", true))
+							}
+						}
+						return true
+					}
 					id, ok := unparen(x.Fun).(*ast.Ident)
 					if !ok || id.Name != "CRed" || len(x.Args) != 2 {
 						return true
